@@ -245,10 +245,12 @@ Referenced(n) == \E e \in s.tags : \E p \in e.attrs : p[1] \in {"suggestedTag", 
 
 AddNode(n, p) == /\ Editable /\ n \notin Names(s.tags)
                  /\ p = "" \/ \E e \in s.tags : e.name = p /\ Own(e) /\ ~e.val
+                 /\ (p \o "/#") \notin Names(s.tags)            \* a placeholder must stay an only child (schema rule)
                  /\ s' = [s EXCEPT !.tags = @ \cup {TagE(n, p, NewIL, "none", FALSE)}]
                  /\ Log(<<"AddNode", n, p>>)
 AddRooted(n, t) == /\ Editable /\ Partnered(s) /\ n \notin Names(s.tags)
                    /\ \E e \in s.tags : e.name = t /\ ~InLib(e) /\ ~e.val
+                   /\ (t \o "/#") \notin Names(s.tags)
                    /\ s' = [s EXCEPT !.tags = @ \cup {TagE(n, t, NewIL \cup {<<"rooted", t>>}, "none", FALSE)}]
                    /\ Log(<<"AddRooted", n, t>>)
 RemoveLeaf(e) == /\ Editable /\ Own(e) /\ Kids(s.tags, e.name) = {} /\ ~Referenced(e.name)
@@ -274,7 +276,7 @@ SetDescOther(x, k) == /\ Editable /\ Own(x) /\ k # x.desc
 ValueOpts == {<<{}, "textClass">>} \cup {<<{u}, "numericClass">> : u \in Names(s.ucs)}
              \cup (IF "libClass" \in Names(s.others) THEN {<<{}, "libClass">>} ELSE {})
              \cup (IF Cardinality(s.ucs) > 1 THEN {<<Names(s.ucs), "numericClass">>} ELSE {})
-AddValueChild(e, o) == /\ Editable /\ Own(e) /\ ~e.val /\ (e.name \o "/#") \notin Names(s.tags)
+AddValueChild(e, o) == /\ Editable /\ Own(e) /\ ~e.val /\ Kids(s.tags, e.name) = {}
                        /\ s' = [s EXCEPT !.tags = @ \cup {TagE(e.name \o "/#", e.name,
                                    NewIL \cup {<<"takesValue", TRUEV>>, <<"valueClass", o[2]>>} \cup {<<"unitClass", u>> : u \in o[1]},
                                    "none", TRUE)}]
@@ -334,6 +336,7 @@ WellFormed == /\ \A e \in s.tags : e.parent = "" \/ e.parent \in Names(s.tags)
               /\ Cardinality(Names(s.tags)) = Cardinality(s.tags)
               /\ \A e \in s.tags : Partnered(s) /\ InLib(e) /\ e.parent # "" /\ ~InLib(ByName(s.tags, e.parent)) => HasA(e, "rooted")
               /\ \A x \in s.units : x.uclass \in Names(s.ucs)
+              /\ \A e \in s.tags : e.val => Kids(s.tags, e.parent) = {e}
               /\ \A e \in s.tags : \A p \in e.attrs : p[1] = "valueClass" => p[2] \in Names(s.others)
 RoundTrip == CanSave(s) => LET R == Reloads(s) IN \A x \in DOMAIN R : RoundTripL(s, x[1], R[x])
 FormatsAgree == CanSave(s) => LET R == Reloads(s) IN \A x \in DOMAIN R : R[x] = R[<<x[1], "xml">>]
